@@ -69,9 +69,15 @@ def check_curve(ctx, params, grid, mean, kappa, et, inp):
     ob = "compute_recession_curve = model riseCurve at Float on the recorded quad values"
     g = common.any_layout(ctx.rng, np.array(grid, dtype=float))
     snap_g = common.snapshot(g)
-    with sim.record_quad() as calls:
-        sim.dirty_heap(ctx.rng, len(g))
-        t = [float(v) for v in srm.compute_recession_curve(sy, Td, g, mean, kappa, et)]
+    try:
+        with sim.record_quad() as calls:
+            sim.dirty_heap(ctx.rng, len(g))
+            t = [float(v) for v in srm.compute_recession_curve(sy, Td, g, mean, kappa, et)]
+    except Exception as e:  # noqa
+        ctx.violation("impl-violation", "c18Holds", {"input": dict(inp, grid_layout={"dtype": str(g.dtype), "strides": list(g.strides)}),
+                      "impl": repr(e)[:300], "oracle": {"name": "c18Holds", "result": False, "witness": {
+                          "why": "compute_recession_curve raises on an increasing grid of levels below the ceiling", "exception": repr(e)[:300]}}})
+        return [float("nan")] * len(grid)
     if not common.same_as_snapshot(g, snap_g) or len(t) != len(grid):
         ctx.violation("impl-violation", "c18Holds", {"input": inp, "impl": [float(v) for v in g], "oracle": {
             "name": "c18Holds", "result": False,
